@@ -57,6 +57,17 @@ func daemonMain(self string) {
 	}
 	dir := os.Getenv("C20_DIR")
 	token := os.Getenv("C20_TOKEN")
+	if n, _ := strconv.Atoi(os.Getenv("C20_RENDEZVOUS")); n > 1 {
+		// daemons that come up together: each announces itself and gives its peers up to three seconds to do the same
+		// before it goes on to Done() - how slowly a daemon reaches Done() may depend on the other launches
+		os.WriteFile(filepath.Join(dir, fmt.Sprintf("started.%d", os.Getpid())), nil, 0o644)
+		for i := 0; i < 300; i++ {
+			if ms, _ := filepath.Glob(filepath.Join(dir, "started.*")); len(ms) >= n {
+				break
+			}
+			time.Sleep(10 * time.Millisecond)
+		}
+	}
 	if n := os.Getenv("C20_NESTED"); n != "" {
 		// a supervisor daemon: before it reports Done() it launches a worker daemon of its own (the worker does not
 		// launch anything itself)
@@ -167,6 +178,7 @@ type kase struct {
 	nested           bool // the launched daemon is a supervisor: it launches a worker daemon itself before Done()
 	shortLived       bool // the handler returns right after Done(): Launch still reports the pid it ran under
 	ignoresSigint    bool // the caller child runs with SIGINT ignored (nohup, background job)
+	rendezvous       bool // concurrent launches only: every daemon waits (up to 3 s) for its peers to have started before it calls Done()
 	childOnly        bool // the first launch asks for a handler that is registered in the re-executed processes only
 	doneFrom         int  // 0: Done() is called by the handler's goroutine; 1: by another goroutine; 2: by a goroutine locked to a thread that ends with it
 }
@@ -210,6 +222,9 @@ func (k kase) String() string {
 	}
 	if k.childOnly {
 		s += " handlerRegisteredInTheReexecutedProcessOnly"
+	}
+	if k.rendezvous && k.concurrent > 1 {
+		s += " daemonsWaitForEachOtherBeforeDone"
 	}
 	if k.doneFrom > 0 {
 		s += []string{"", " doneCalledFromAnotherGoroutine", " doneCalledFromAGoroutineWithItsOwnThread"}[k.doneFrom]
@@ -268,6 +283,9 @@ func runCase(k kase) string {
 		env["C20_SHORT_LIVED"] = "1"
 	}
 	env["C20_DONE_FROM"] = strconv.Itoa(k.doneFrom)
+	if k.rendezvous && k.concurrent > 1 {
+		env["C20_RENDEZVOUS"] = strconv.Itoa(k.concurrent)
+	}
 	type result struct {
 		pid       int
 		err       string
@@ -611,6 +629,7 @@ func TestGenerated(t *testing.T) {
 		k.shortLived = !k.nested && rapid.IntRange(0, 3).Draw(t, "handlerReturnsAfterDone") == 0
 		k.ignoresSigint = k.childCaller && rapid.IntRange(0, 2).Draw(t, "callerIgnoresSIGINT") == 0
 		k.doneFrom = rapid.SampledFrom([]int{0, 0, 1, 2}).Draw(t, "doneCalledFrom")
+		k.rendezvous = k.concurrent > 1 && !k.nested && rapid.IntRange(0, 3).Draw(t, "daemonsWaitForEachOther") == 0
 		k.childOnly = !k.afterFailed && rapid.IntRange(0, 4).Draw(t, "handlerKnownToTheReexecutedProcessOnly") == 0
 		msg := runCase(k)
 		if strings.HasPrefix(msg, "harness:") {
@@ -646,6 +665,9 @@ func TestGenerated(t *testing.T) {
 		}
 		if k.childOnly {
 			ev.Label("handler_registered_in_the_re-executed_process_only")
+		}
+		if k.rendezvous && k.concurrent > 1 {
+			ev.Label("daemons_wait_for_each_other_before_Done")
 		}
 		if k.ignoresSigint {
 			ev.Label("caller_runs_with_SIGINT_ignored")
